@@ -2059,3 +2059,20 @@ def _mk_ord(which):
 
 for _w in ("lt", "le", "gt", "ge"):
     I.setdefault("<_ as PartialOrd>::" + _w, _mk_ord(_w))
+
+
+@intr("<_ as ToString>::to_string")
+def _to_string_display(ex, args, f, _prev=I["<_ as ToString>::to_string"]):
+    """to_string through the crate's own Display impl (run from MIR into a scratch formatter); integers in decimal"""
+    v = deref_all(ex, args[0])
+    if isinstance(v, Int) and v.ty != "char":
+        from intrinsics import render_int
+        return Str(render_int(ex, v, "d"), owned=True)
+    if isinstance(v, Adt) and v.ty not in ("Cow", "String", "Option", "Result"):
+        fn = ex.find_impl("fmt", "Display", v.ty)
+        if fn is not None:
+            from intrinsics import Formatter
+            fm = Formatter()
+            ex.call_fn(fn, [Ref(Cell(v)), Ref(Cell(fm))])
+            return Str(list(fm.out), owned=True)
+    return _prev(ex, args, f)
